@@ -101,8 +101,7 @@ def specA (p : Params) (cfg : Cfg) (dev : List (Peer × DeviceInfo)) : Local cfg
           (k = p.kA → c.data = p.P ∧ c.service = p.svc ∧ b.segSize = p.sizeP ∧ b.segCount = p.countP)) ∧
     (b.st = .segConf → ∃ c, b.ctx = some c ∧ c.invokeId = k.id ∧ (k = p.kA → RecvBuf p.TR b))
   SI _ _ := False
-  FC k b a := k = p.kA →
-    (a.ty = 3 → Genuine p.TR a) ∧ (b.st = .segReq → a.ty = 3 → a.seg = true → a.seq = 0)
+  FC k _ a := k = p.kA → a.ty = 3 → Genuine p.TR a
   FS _ _ _ := True
   FN _ _ := False
   RS _ _ _ := True
